@@ -35,6 +35,7 @@ package main
 
 import (
 	"fmt"
+	"math"
 	"os"
 	"reflect"
 	"strconv"
@@ -58,7 +59,11 @@ var (
 // like a slice index (the model tells a slice cell from a map cell by its keys: indices < 8, key ids ≥ 8).
 func ownInit() error {
 	seen := map[int]string{}
-	for _, v := range []any{"a", "b", "x", "s", "t", "lit", 0, 1, 2, 7, true, false, 99, "mutated"} {
+	pool := []any{"a", "b", "x", "s", "t", "lit", 0, 1, 2, 7, true, false, 99, "mutated"}
+	for _, f := range ownFloats {
+		pool = append(pool, f)
+	}
+	for _, v := range pool {
 		id := storex.ScalarID(v)
 		if w, ok := seen[id]; ok {
 			return fmt.Errorf("own: scalar ids collide: %v and %s", v, w)
@@ -80,6 +85,15 @@ func ownInit() error {
 	return nil
 }
 
+// ownFloats: float leaves of a pointee of the class optr (jvalFloats on): NaN in three bit patterns, -0, the infinities, one
+// ordinary number. A scalar's content id is the id of its BITS (storex.FloatRepr), which is what the model's `sameV` compares:
+// a NaN leaf is the same as itself, two NaNs of different payload are not. (Not in the histories of the class own: there the
+// members of literals are compared by the library with reflect.DeepEqual, under which a NaN matches nothing — another matter.)
+var (
+	ownFloats  = []float64{nanQ, nanP, nanNeg, negZ, math.Inf(1), math.Inf(-1), 6.25}
+	jvalFloats = false
+)
+
 var ownDebug = os.Getenv("C15_OWN_DEBUG") != ""
 
 type mnode struct {
@@ -94,6 +108,9 @@ type mnode struct {
 // jval: a non-empty any-typed graph of depth ≤ d (no empty containers, no typed nils).
 func jval(r *hx.Rng, d int) any {
 	if d <= 0 || r.Chance(20) {
+		if jvalFloats && r.Chance(40) {
+			return hx.Pick(r, ownFloats)
+		}
 		switch r.Intn(3) {
 		case 0:
 			return hx.Pick(r, ownStrs)
